@@ -66,6 +66,10 @@ WANTED = [
     ("src/buint/checked.rs", None, "checked_next_multiple_of", "checked_next_multiple_of"),
     ("src/buint/cast.rs", None, "cast_up", "cast_up"),
     ("src/buint/cast.rs", None, "cast_down", "cast_down"),
+    # a function of a macro that is instantiated for several PRIMITIVE integer types: fifth component =
+    # (macro name, regex of its parameter list, the metavariable of the primitive type, regex every instantiating type must match)
+    ("src/buint/convert.rs", r"impl\s*<\s*const\s+N\s*:\s*usize\s*>\s*From\s*<\s*\$uint\s*>\s*for\s*\$BUint\s*<\s*N\s*>", "from", "from_uint",
+     ("from_uint", r"\(\s*\$BUint\s*:\s*ident\s*,\s*\$Digit\s*:\s*ident\s*;\s*\$\(\s*\$uint\s*:\s*tt\s*\)\s*,\s*\*\s*\)", "$uint", r"u(8|16|32|64|128|size)")),
 ]
 
 # `Self` in the files of src/bint/ is $BInt<N> (a struct around `bits: $BUint<N>`)
@@ -105,6 +109,7 @@ GROUPS = {
             "leading_ones", "trailing_ones", "is_power_of_two", "is_zero", "is_one", "from_digit", "digits", "from_digits", "bit",
             "set_bit", "power_of_two", "bits", "checked_next_power_of_two"],
     "C09": ["cast_up", "cast_down"],
+    "C13": ["from_uint"],
     "C08": ["overflowing_pow", "checked_pow", "wrapping_pow", "checked_ilog2", "iilog", "checked_ilog10", "checked_ilog"],
     "C03": ["div_rem_digit", "last_digit_index", "checked_next_multiple_of"],
 }
@@ -181,9 +186,10 @@ class LP(_dig.P):
     """Parser for function bodies.  Inherits peek / expr (binary-operator precedence climbing, LEVELS) from
     rs2v_digit.P; statements, unary operators, paths, indexing, types are defined here."""
 
-    def __init__(self, toks, selfty="buint"):
+    def __init__(self, toks, selfty="buint", prim=None):
         _dig.P.__init__(self, toks)
         self.selfty = selfty           # what `Self` means in the file being parsed
+        self.prim = prim               # the macro metavariable that stands for an unsigned primitive integer type ($uint)
 
     def eat(self, x=None):
         v = self.peek()
@@ -222,6 +228,8 @@ class LP(_dig.P):
             self.eat("]")
             return "digits" if z == "N" else Arr("digits", z)
         name = self.ident()
+        if self.prim is not None and name == self.prim:
+            return "PUint"
         if name in ("usize", "bool", "ExpType", "Ordering"):
             return {"Ordering": "ordering"}.get(name, name)
         if name == "u32":
@@ -268,6 +276,15 @@ class LP(_dig.P):
                 x = self.eat()
                 d += {"[": 1, "]": -1}.get(x, 0)
             return self.stmt()
+        if v == "const":                                # `const NAME: T = e;` inside a body: an immutable, typed `let`
+            self.eat("const")
+            name = self.ident()
+            self.eat(":")
+            ty = self.type_()
+            self.eat("=")
+            init = self.expr()
+            self.eat(";")
+            return ["let", ["pid", (name, False)], ty, init]
         if v == "let":
             self.eat("let")
             pat = self.pattern()
@@ -621,7 +638,7 @@ def coq_ty(t):
         return "(option %s)" % (inner if inner.startswith("(") or " " not in inner else "(" + inner + ")")
     if isinstance(t, tuple):
         return "(" + " * ".join(coq_ty(x) for x in t) + ")"
-    if isinstance(t, TVar) or t in INTS:
+    if isinstance(t, TVar) or t in INTS or t == "PUint":
         return "Z"
     if isinstance(t, Arr):
         return "list Z"
@@ -635,7 +652,7 @@ DIGIT_METHODS = {   # Digit method -> (Gallina head applied to the receiver, res
     "swap_bytes": ("u_swap_bytes w", "Digit"), "reverse_bits": ("u_reverse_bits w", "Digit"),
 }
 POS_CONSTS = {"ONE": 1, "TWO": 2, "THREE": 3, "FOUR": 4, "FIVE": 5, "SIX": 6, "SEVEN": 7, "EIGHT": 8, "NINE": 9, "TEN": 10}
-RESERVED = {"w", "N", "fuel", "None", "Some"}
+RESERVED = {"w", "N", "fuel", "None", "Some", "pb", "dbg"}
 
 
 class Var:
@@ -656,6 +673,7 @@ class Gen:
         self.uses_dbg = False
         self.recursive = False
         self.sizes = [g for g, t in sigs[fname]["generics"] if t == "usize"]   # `const M: usize` generics
+        self.prim = sigs[fname]["prim"]                # the metavariable of the unsigned primitive type ($uint), or None
 
     def size_str(self, z, what):
         """the Gallina term for an array size: N, a usize generic, or (final pass) an inferred one"""
@@ -796,6 +814,8 @@ class Gen:
                 return p, "(ud w %s)" % v, dst
             if (src, dst) == ("bool", "Digit"):
                 return p, "(Z.b2z %s)" % v, dst
+            if (src, dst) == ("PUint", "Digit"):         # unsigned primitive -> digit: truncation / zero extension
+                return p, "(ud w %s)" % v, dst
             self.die("unsupported cast %s as %s" % (show(src), show(dst)))
         if k == "bin":
             return self.bin(e, env)
@@ -856,6 +876,8 @@ class Gen:
 
     def path(self, segs, env, node=None):
         s = tuple(segs)
+        if s[:2] == ("crate", "digit"):                # `crate::digit::..` is `digit::..` (the files `use crate::digit;`)
+            s = s[1:]
         if s[0] != "Self" and self.sizes and s in (("$BUint", "ZERO"), ("$BUint", "MIN"), ("$BUint", "MAX")):
             # in a function with `const M: usize` parameters the size of `$BUint::ZERO` is inferred by Rust from its use
             z = self.tv_any(node)
@@ -876,6 +898,8 @@ class Gen:
                 self.die("Self::%s is Self::from_digit(%d), which is not translated" % (s[1], POS_CONSTS[s[1]]))
             x = self.tmp()
             return ["%s <- %s w N fuel %d ;;" % (x, sg["coq"], POS_CONSTS[s[1]])], x, "buint"
+        if self.prim is not None and s == (self.prim, "BITS"):
+            return [], "pb", "ExpType"                 # $uint::BITS: the parameter pb of the generated function
         if s == ("$Digit", "MAX"):
             return [], "(u_max w)", "Digit"
         if s == ("$Digit", "MIN"):
@@ -1060,6 +1084,11 @@ class Gen:
                 return pre + ["%s <- %s w %s %s ;;" % (x, {"<<": "dshl", ">>": "dshr"}[op], va, vb)], x, "Digit"
             if t in ("usize", "ExpType") and op == ">>":
                 return pre, "(ix_shr %s %s)" % (va, vb), t
+            if t == "usize" and op == "<<":                # index arithmetic (`i << BIT_SHIFT`): unbounded, like `+`
+                return pre, "(ix_shl %s %s)" % (va, vb), t
+            if t == "PUint" and op == ">>":                # $uint >> s: s >= $uint::BITS panics
+                x = self.tmp()
+                return pre + ["%s <- pshr pb %s %s ;;" % (x, va, vb)], x, t
             if t == "ExpType" and op == "<<":              # u32 << s: the bits shifted out are lost; s >= 32 panics
                 x = self.tmp()
                 return pre + ["%s <- eshl %s %s ;;" % (x, va, vb)], x, t
@@ -1450,9 +1479,9 @@ def find_fn(src, anchor, name, path):
     return fm.group(1), params, ret, src[k:e]
 
 
-def parse_sig(name, generics, params, ret, selfty="buint"):
+def parse_sig(name, generics, params, ret, selfty="buint", prim=None):
     sig = {"self": False, "params": [], "generics": [], "mut": set(), "selfty": selfty, "rust": name, "callable": True,
-           "mutref": False, "dbg": False}
+           "mutref": False, "dbg": False, "prim": None}
     if generics:
         for g in generics.strip()[1:-1].split(","):
             m = re.match(r"^\s*const\s+(\w+)\s*:\s*(bool|usize)\s*$", g)
@@ -1461,7 +1490,8 @@ def parse_sig(name, generics, params, ret, selfty="buint"):
             if m.group(1) in RESERVED:
                 die("fn %s: generic parameter name %s is reserved by the translator" % (name, m.group(1)))
             sig["generics"].append((m.group(1), m.group(2)))
-    t = LP(tokenize(params), selfty)
+    sig["prim"] = prim
+    t = LP(tokenize(params), selfty, prim)
     first = True
     while t.peek() is not None:
         if first and (t.peek() == "self" or (t.peek() in ("&", "mut") and t.peek(1) == "self")
@@ -1500,7 +1530,7 @@ def parse_sig(name, generics, params, ret, selfty="buint"):
         return sig
     if sig["mutref"]:
         die("fn %s: `&mut self` with a return value is not supported" % name)
-    r = LP(tokenize(ret), selfty)
+    r = LP(tokenize(ret), selfty, prim)
     sig["ret"] = r.type_()
     if r.peek() is not None:
         die("fn %s: cannot parse the return type %s" % (name, ret))
@@ -1558,15 +1588,29 @@ def main():
     fns = {}
     sigs = {}
     consts = {}
-    def load(path):
-        """the body of the first macro_rules! ($BUint, $BInt, $Digit) of the file, comments stripped"""
+    def load(path, macro=None):
+        """the body of the first macro_rules! ($BUint, $BInt, $Digit) of the file (macro = (name, parameter-list regex, ..):
+        of that macro), comments stripped"""
         p = os.path.join(REPO, path)
         if not os.path.exists(p):
             die("source file %s not found" % p)
         txt = strip_comments(open(p).read())
-        mm = re.search(r"macro_rules!\s*\w+\s*\{\s*\(\s*\$BUint\s*:\s*ident\s*,\s*\$BInt\s*:\s*ident\s*,\s*\$Digit\s*:\s*ident\s*\)", txt)
-        if not mm:
-            die("%s: macro_rules! with ($BUint, $BInt, $Digit) not found" % path)
+        if macro is None:
+            mm = re.search(r"macro_rules!\s*\w+\s*\{\s*\(\s*\$BUint\s*:\s*ident\s*,\s*\$BInt\s*:\s*ident\s*,\s*\$Digit\s*:\s*ident\s*\)", txt)
+            if not mm:
+                die("%s: macro_rules! with ($BUint, $BInt, $Digit) not found" % path)
+        else:
+            mm = re.search(r"macro_rules!\s*%s\s*\{\s*%s\s*=>" % (re.escape(macro[0]), macro[1]), txt)
+            if not mm:
+                die("%s: macro_rules! %s with the expected parameter list not found" % (path, macro[0]))
+            # every instantiation passes primitive types of the modelled kind only (the last argument group)
+            uses = re.findall(r"(?<![\w!])%s!\s*\(([^()]*)\)\s*;" % re.escape(macro[0]), txt)
+            if not uses:
+                die("%s: no instantiation of macro %s found" % (path, macro[0]))
+            for u in uses:
+                tys = [x.strip() for x in u.split(";")[-1].split(",") if x.strip()]
+                if not tys or not all(re.fullmatch(macro[3], x) for x in tys):
+                    die("%s: macro %s is instantiated for types outside the modelled kind: %s" % (path, macro[0], ", ".join(tys)))
         # keep only the body of that (first) macro: the functions are looked up inside it
         b0 = txt.index("{", mm.start())
         d, e = 0, b0
@@ -1579,18 +1623,26 @@ def main():
                 break
         return txt[b0:e]
 
-    for path, anchor, name, coq in WANTED:
-        if path not in files:
-            files[path] = load(path)
-            consts[path] = assoc_consts(files[path], selfty_of(path))
-            for other in CONST_FILES.get(path, []):
-                for cn, cv in assoc_consts(load(other), selfty_of(other)).items():
-                    consts[path].setdefault(cn, cv)
+    for path, anchor, name, coq, macro in [(e + (None,))[:5] for e in WANTED]:
+        fkey = path if macro is None else (path, macro[0])
         try:
-            generics, params, ret, body = find_fn(files[path], anchor, name, path)
+            if fkey not in files:
+                files[fkey] = load(path, macro)
+                if path not in consts:
+                    consts[path] = assoc_consts(files[fkey], selfty_of(path)) if macro is None else {}
+                    for other in CONST_FILES.get(path, []):
+                        for cn, cv in assoc_consts(load(other), selfty_of(other)).items():
+                            consts[path].setdefault(cn, cv)
+        except SystemExit:
+            if macro is None:
+                raise                                   # a whole file of the core is unreadable: global failure
+            failed[coq] = LAST_MSG[0]
+            continue
+        try:
+            generics, params, ret, body = find_fn(files[fkey], anchor, name, path)
             if coq in fns:
                 die("two wanted functions are called " + coq)
-            sg = parse_sig(name, generics, params, ret, selfty_of(path))
+            sg = parse_sig(name, generics, params, ret, selfty_of(path), macro[2] if macro else None)
             sg["coq"] = coq
             sg["callable"] = anchor is None            # trait impls (`Add<$Digit>::add`) are not resolved by name
             fns[coq] = (path, coq, body)
@@ -1634,7 +1686,7 @@ def main():
     texts = {}
     while True:
         again = False
-        for path, anchor, name, coq in WANTED:
+        for path, anchor, name, coq in [e[:4] for e in WANTED]:
             if coq in failed:
                 continue
             try:
@@ -1645,7 +1697,7 @@ def main():
                 again = True
         if not again:
             break
-    for path, anchor, name, coq in WANTED:
+    for path, anchor, name, coq in [e[:4] for e in WANTED]:
         if coq not in failed:
             out.append(texts[coq])
         else:
@@ -1668,7 +1720,7 @@ def translate_one(path, name, coq, fns, sigs, dsigs, consts):
         out = []
         _, _, body = fns[coq]
         sig = sigs[coq]
-        ast = LP(tokenize(body), sig["selfty"]).block()
+        ast = LP(tokenize(body), sig["selfty"], sig["prim"]).block()
         tvs = {}
         txt = None
         for final in (False, True):
@@ -1691,6 +1743,8 @@ def translate_one(path, name, coq, fns, sigs, dsigs, consts):
         if g.recursive:                                # a recursive fn: structural recursion on the budget
             kw, pre_, post_ = "Fixpoint", "  match fuel with\n  | O => NoFuel\n  | S fuel' =>\n", "\n  end"
             argl += " {struct fuel}"
+        if sig["prim"] is not None:
+            argl = " (pb : Z)" + argl                  # the width of the primitive type the macro is instantiated at
         out.append("%s %s %s(w N : Z) (fuel : nat)%s : res (%s) :=\n%s%s%s.\n" % (kw, coq, "(dbg : bool) " if sig["dbg"] else "", argl, coq_ty(sig["ret"])[1:-1] if isinstance(rs(sig["ret"]), tuple) else coq_ty(sig["ret"]), pre_, txt, post_))
         return "\n".join(out)
 
